@@ -284,7 +284,65 @@ def run(tier, seed):
     # sampler re-use: a second run on the same object is a run with the arguments it was given --
     sr, f2 = reuse_suite(rnd, 24 if thorough else 8)
     findings.extend(f2)
-    return [st, sc, sr], findings
+    so = overflow_suite(random.Random(seed * 69621 + 2), 24 if thorough else 8, findings)
+    return [st, sc, sr, so], findings
+
+
+def overflow_suite(rnd, N, findings):
+    """proposals so far away that their energy overflows: +inf, never accepted"""
+    import os
+    from hmclab import Samplers as S, Distributions as D
+    from hmclab.Samples import Samples
+    from ..probes import scratch, quiet
+
+    so = Suite("C02.overflow", "RWMH on Gaussian targets (full, diagonal and scalar covariance; Mixture of them) with step sizes of 1e155 .. 1e200: the energy of every "
+               "proposal overflows to +inf (reference: the quadratic form with the scale factored out), so the chain must stay at its finite initial state; "
+               "non-trivial = all")
+    with scratch() as tmp:
+        for ci in range(N):
+            d = rnd.choice([2, 3, 4])
+            A = np.array([[rnd.gauss(0, 1) for _ in range(d)] for _ in range(d)])
+            cov = A @ A.T / d + np.eye(d)
+            cov = 0.5 * (cov + cov.T)
+            kind = rnd.choice(["full", "full", "full", "diagonal", "scalar", "mixture"])
+            mu = np.zeros((d, 1))
+            if kind == "full":
+                dist = D.Normal(mu, cov.copy())
+            elif kind == "diagonal":
+                dist = D.Normal(mu, np.diag(cov).reshape(-1, 1).copy())
+            elif kind == "scalar":
+                dist = D.Normal(mu, 2.0)
+            else:
+                dist = D.Mixture([D.Normal(mu, cov.copy()), D.Normal(mu + 1.0, cov.copy() * 2)], [0.4, 0.6])
+            step = rnd.choice([1e155, 1e160, 1e200])
+            sd = rnd.randrange(1 << 30)
+            q0 = np.array([[rnd.uniform(-0.5, 0.5)] for _ in range(d)])
+            fn = os.path.join(tmp, f"o{ci}.h5")
+            stim = {"target": kind, "d": d, "covariance": cov.tolist(), "stepsize": step, "seed": sd, "initial_model": q0.ravel().tolist()}
+            so.case(stim, nontrivial=True, sample={"target": kind, "stepsize": step} if len(so.samples) < 2 else None)
+            so.count(f"target={kind}")
+            try:
+                with quiet(), np.errstate(all="ignore"):
+                    smp = S.RWMH(seed=sd)
+                    smp.sample(fn, dist, stepsize=step, initial_model=q0.copy(), proposals=40, disable_progressbar=True, overwrite_existing_file=True)
+                    sm = Samples(fn)
+                    arr = np.array(sm.numpy, dtype=float)
+                    sm.close()
+            except Exception as e:
+                findings.append(Finding("C02", f"RWMH with stepsize {step:g} on a {kind} Gaussian target raised {e!r}"[:300], {"kind": "overflow-raised"}, {"oracle": "overflow", "stimulus": stim}))
+                continue
+            moved = [j for j in range(arr.shape[1]) if not np.array_equal(arr[:-1, j], q0.ravel())]
+            if moved:
+                j = moved[0]
+                x = arr[:-1, j]
+                sc_ = float(np.max(np.abs(x)))
+                qf = float((x / sc_) @ np.linalg.solve(cov, x / sc_)) if kind in ("full", "mixture") else float(np.sum((x / sc_) ** 2))
+                with np.errstate(all="ignore"):
+                    true_energy = 0.5 * qf * sc_ * sc_
+                findings.append(Finding("C02", f"RWMH(seed={sd}, stepsize={step:g}) on a {kind}-covariance Gaussian accepted the proposal {x.tolist()} whose energy is {true_energy!r} "
+                                        f"(stored misfit {float(arr[-1, j])!r}); accepted_proposals={int(smp.accepted_proposals)}"[:400],
+                                        {"kind": "overflow-accepted", "target": kind}, {"oracle": "overflow", "stimulus": stim, "column": j}))
+    return so
 
 
 def reuse_suite(rnd, N):
